@@ -213,6 +213,8 @@ FnSig ==
    Var   |-> [ps |-> <<"any", "any", "any">>, r |-> "any", var |-> TRUE],   \* func(...interface{}) interface{}
    Pair  |-> Sig(<<"any", "any">>, "any"),
    AddF  |-> Sig(<<"float64", "float64">>, "float64"),
+   AddAny |-> Sig(<<"any", "any">>, "any"),
+   Rev   |-> Sig(<<"[]int">>, "[]int"),
    Tup   |-> [ps |-> <<"any", "any", "any">>, r |-> "any", var |-> TRUE],
    VarI  |-> [ps |-> <<"any", "any", "any">>, r |-> "any", var |-> TRUE]]
 (* methods of Obj (value receiver) and *Obj (pointer receiver) *)
@@ -277,6 +279,8 @@ FnApply(name, args, rho) ==
     [] name = "Var"   -> IntV(Len(args))
     [] name = "Pair"  -> Arr("any", args)
     [] name = "AddF"  -> Arith("+", args[1], args[2], {})
+    [] name = "AddAny" -> Arr("any", args)
+    [] name = "Rev"   -> Arr("int", [i \in 1..Len(args[1].a) |-> args[1].a[Len(args[1].a) + 1 - i]])
     [] name = "Tup"   -> Arr("any", args)       \* the callee returns its argument list
     [] name = "VarI"  -> Wrap(rho["I"].n + Len(args), "int")   \* a closure over its own environment value
 
@@ -370,7 +374,8 @@ Eval(t, rho, st, cx) ==
     [] t.k = "int"   -> R(IntV(t.v), st)
     [] t.k = "float" -> R(F64(t.m, t.e), st)
     [] t.k = "str"   -> R(Str(t.s), st)
-    [] t.k = "id"    -> R(rho[t.name], st)
+    [] t.k = "id"    -> IF t.name \in DOMAIN rho THEN R(rho[t.name], st)
+                        ELSE R(Err("nil"), st)           \* a name the environment value does not have
     [] t.k = "ptr"   -> R(cx.els[Len(cx.els)], st)       \* the element of the innermost collection
     [] t.k = "const" -> R(t.v, st)
     [] t.k = "un"    -> LET a == Eval(t.x, rho, st, cx)
